@@ -55,11 +55,12 @@ package tensor
 //@   trusted
 //@   params t dst src diter siter
 //@   ensures [by_position] gh("rawcopy", dst) == 0
-//@   assigns whole(dst.Raw), gh("rawcopy", dst)
+//@   ensures [consumed] gh("it_pos", diter) >= old(gh("it_pos", diter)) && gh("it_pos", siter) >= old(gh("it_pos", siter)) && (gh("it_pos", diter) >= it_len(diter) || gh("it_pos", siter) >= it_len(siter))
+//@   assigns whole(dst.Raw), gh("rawcopy", dst), gh("it_pos", diter), gh("it_pos", siter)
 
 //@ func tensor.FlatIteratorFromDense
 //@   trusted
-//@   ensures [some] !isnil(result)
+//@   ensures [some] !isnil(result) && fresh(result) && gh("it_pos", result) == 0
 //@   assigns nothing
 
 //@ func tensor.copyDenseIter
@@ -71,7 +72,7 @@ package tensor
 //@   ensures [raw_only_when_flat] result1 == nil && gh("rawcopy", asptr("tensor.Dense", dst)) == 1 ==> old(flatOK(asptr("tensor.Dense", dst)) && flatOK(asptr("tensor.Dense", src)) && sameOrder(asptr("tensor.Dense", dst), asptr("tensor.Dense", src)))
 //@   ensures [mode_known] result1 == nil ==> gh("rawcopy", asptr("tensor.Dense", dst)) == 0 || gh("rawcopy", asptr("tensor.Dense", dst)) == 1
 //@   ensures [source] asptr("tensor.Dense", src).Raw == old(asptr("tensor.Dense", src).Raw)
-//@   assigns whole(asptr("tensor.Dense", dst).Raw), asptr("tensor.Dense", dst).mask, whole(asptr("tensor.Dense", dst).mask), gh("rawcopy", asptr("tensor.Dense", dst))
+//@   assigns whole(asptr("tensor.Dense", dst).Raw), asptr("tensor.Dense", dst).mask, whole(asptr("tensor.Dense", dst).mask), gh("rawcopy", asptr("tensor.Dense", dst)), gh("it_pos", diter), gh("it_pos", siter)
 
 //@ func tensor.Dense.Materialize
 //@   props C04
